@@ -357,6 +357,15 @@ BookSqAssd(res, im) ==
         IN /\ IsMilliV(res.sq["ASSD"])
            /\ res.sq["ASSD"].v[1] * res.tp <= s + res.tp
            /\ s <= (res.sq["ASSD"].v[1] + 1) * res.tp + res.tp
+\* every instance that is counted and listed as a true positive meets the decision threshold
+\* (an instance that fails it is a false positive and a false negative, never a true positive)
+BookDecision(res, dm, dthr) ==
+    dm # "NONE" =>
+        \A i \in 1..Len(res.lists[dm]) :
+            LET x == res.lists[dm][i] IN
+            IF x.k = "rat" THEN (IF Decreasing(dm) THEN Leq(x.v, dthr) ELSE Leq(dthr, x.v))
+            ELSE IF x.k = "milli" THEN (x.v[1] - 1) * dthr[2] <= 1000 * dthr[1]     \* decreasing (ASSD), one unit of slack
+            ELSE FALSE
 PqMetrics == {"IOU", "DSC"}
 BookPq(res, im) ==
     \A m \in im \cap PqMetrics :
